@@ -33,6 +33,7 @@ type c07ListResult struct {
 
 type c07Bucket struct {
 	name  string
+	dead  []string // files on disk that are not objects (current version is a delete marker)
 	keys  []string
 	sizes map[string]int
 	etags map[string]string
@@ -50,6 +51,9 @@ func (b *c07Bucket) keysToken() string {
 	var o []string
 	for _, k := range b.keys {
 		o = append(o, fmt.Sprintf("%s:%d:%s", lib.HexS(k), b.sizes[k], lib.HexS(b.etags[k])))
+	}
+	for _, k := range b.dead {
+		o = append(o, lib.HexS(k)+":D:-")
 	}
 	return c07List(o)
 }
@@ -100,8 +104,10 @@ func c07ListOnce(addr string, cr gw.Creds, bucket string, v2 bool, prefix, delim
 }
 
 func c07E2E(a lib.Args, res *lib.Result) error {
-	if a.ReplayInput() != nil {
-		return nil // replays are in-process inputs (c07Walk)
+	if in := a.ReplayInput(); in != nil {
+		if st, _ := in["stage"].(string); st != "e2e" {
+			return nil // not a finding of this stage
+		}
 	}
 	cfg, err := mustStorage(a, "c07", false, false, nil)
 	if err != nil {
@@ -174,6 +180,12 @@ func c07E2E(a lib.Args, res *lib.Result) error {
 		}
 	}
 
+	return c07QueryBuckets(a, res, r, addr, cr, buckets, "e2e", true)
+}
+
+// c07QueryBuckets lists every bucket with a grid of fixed and random (prefix, delimiter, marker,
+// max-keys) requests through V1 and V2, follows the pages and has the Lean driver judge each run.
+func c07QueryBuckets(a lib.Args, res *lib.Result, r *lib.Rand, addr string, cr gw.Creds, buckets []*c07Bucket, stage string, probes bool) error {
 	type run struct {
 		b     *c07Bucket
 		v2    bool
@@ -195,9 +207,12 @@ func c07E2E(a lib.Args, res *lib.Result) error {
 				queries = append(queries, c07Case{Delim: d, Max: n})
 			}
 		}
-		queries = append(queries, c07Case{Delim: "/", Max: 0}, c07Case{Delim: "-", Max: 1}, c07Case{Prefix: "a//", Max: 5}, c07Case{Prefix: "../", Max: 5},
-			c07Case{Prefix: ".sgwtmp/", Max: 5}, c07Case{Prefix: ".sgwtmp/multipart/", Max: 50},
-			c07Case{Prefix: ".sgwtmp/", Delim: "/", Max: 5}, c07Case{Prefix: ".sgwtmp/multipart/", Delim: "/", Max: 50}, c07Case{Prefix: ".sgwtmp", Delim: "/", Max: 5})
+		queries = append(queries, c07Case{Delim: "/", Max: 0}, c07Case{Delim: "-", Max: 1})
+		if probes {
+			queries = append(queries, c07Case{Prefix: "a//", Max: 5}, c07Case{Prefix: "../", Max: 5},
+				c07Case{Prefix: ".sgwtmp/", Max: 5}, c07Case{Prefix: ".sgwtmp/multipart/", Max: 50},
+				c07Case{Prefix: ".sgwtmp/", Delim: "/", Max: 5}, c07Case{Prefix: ".sgwtmp/multipart/", Delim: "/", Max: 50}, c07Case{Prefix: ".sgwtmp", Delim: "/", Max: 5})
+		}
 		for i := 0; i < nq; i++ {
 			c := c07RandCase(r, false)
 			c.Keys = b.keys
@@ -231,11 +246,11 @@ func c07E2E(a lib.Args, res *lib.Result) error {
 			queries = append(queries, c)
 		}
 		for _, q := range queries {
-			q.Keys, q.Skip = b.keys, skip
+			q.Keys, q.Dead, q.Skip, q.Stage, q.Bucket = b.keys, b.dead, skip, stage, b.name
 			for _, v2 := range []bool{false, true} {
 				var pages []c07Page
 				marker, token := q.Marker, ""
-				limit := 4*len(b.keys) + 8
+				limit := 4*(len(b.keys)+len(b.dead)) + 8
 				ok, terminated := true, false
 				for i := 0; i < limit; i++ {
 					p, st, msg := c07ListOnce(addr, cr, b.name, v2, q.Prefix, q.Delim, marker, token, q.Max)
@@ -244,13 +259,13 @@ func c07E2E(a lib.Args, res *lib.Result) error {
 						// includes prefixes whose root is not a valid io/fs path (`a//`, `../`): the empty
 						// listing, not 500 (repaired by C07-fix-3)
 						res.Fail(lib.Failure{Kind: "property", Signature: "list:error-status", What: fmt.Sprintf("listing request answered %d instead of a (possibly empty) listing", st),
-							Input: map[string]interface{}{"keys": b.keys, "prefix": q.Prefix, "delimiter": q.Delim, "marker": marker, "token": token, "max": q.Max, "v2": v2}, Impl: msg})
+							Input: map[string]interface{}{"bucket": b.name, "keys": b.keys, "dead": b.dead, "prefix": q.Prefix, "delimiter": q.Delim, "marker": marker, "token": token, "max": q.Max, "v2": v2}, Impl: msg})
 						break
 					}
 					for _, k := range append(append([]string{}, p.objs...), p.cps...) {
 						if k == ".sgwtmp" || strings.HasPrefix(k, ".sgwtmp/") {
 							res.Fail(lib.Failure{Kind: "property", Signature: "list:internal-name-listed", What: "an internal bookkeeping name appears in a listing (prefix below .sgwtmp: repaired by C07-fix-2)",
-								Input: map[string]interface{}{"keys": b.keys, "prefix": q.Prefix, "delimiter": q.Delim, "marker": marker, "max": q.Max, "v2": v2}, Impl: p.String()})
+								Input: map[string]interface{}{"bucket": b.name, "keys": b.keys, "dead": b.dead, "prefix": q.Prefix, "delimiter": q.Delim, "marker": marker, "max": q.Max, "v2": v2}, Impl: p.String()})
 							ok = false
 						}
 					}
@@ -271,7 +286,7 @@ func c07E2E(a lib.Args, res *lib.Result) error {
 				if v2 {
 					api = "v2"
 				}
-				res.Count(fmt.Sprintf("e2e|%s|%s|%q|%q|%q|%d", b.name, api, q.Prefix, q.Delim, q.Marker, q.Max), len(b.keys) > 0 && q.Max > 0, "e2e:"+api, fmt.Sprintf("e2e:pages:%d", len(pages)))
+				res.Count(fmt.Sprintf("%s|%s|%s|%q|%q|%q|%d", stage, b.name, api, q.Prefix, q.Delim, q.Marker, q.Max), len(b.keys) > 0 && q.Max > 0, stage+":"+api, fmt.Sprintf("%s:pages:%d", stage, len(pages)))
 				if !ok {
 					continue
 				}
@@ -284,6 +299,7 @@ func c07E2E(a lib.Args, res *lib.Result) error {
 						toks = append(toks, p.token())
 					}
 				}
+				q.API = api
 				runs = append(runs, run{b, v2, q, pages})
 				lines = append(lines, fmt.Sprintf("walk judge %s %s %s %s %s %d %s", b.keysToken(), c07HexList(skip),
 					lib.HexS(q.Prefix), lib.HexS(q.Delim), lib.HexS(q.Marker), q.Max, strings.Join(toks, " ")))
